@@ -270,6 +270,104 @@ func btoi(b bool) int {
 	return 0
 }
 
+// textOf renders every argument list the way the console does (Args.String).
+func textOf(s *stack.Snapshot, a *stack.Aggregated) string {
+	var sb strings.Builder
+	if a != nil {
+		for _, b := range a.Buckets {
+			for i := range b.Stack.Calls {
+				sb.WriteString(b.Stack.Calls[i].Args.String())
+				sb.WriteString("\n")
+			}
+		}
+		return sb.String()
+	}
+	for _, g := range s.Goroutines {
+		for i := range g.Stack.Calls {
+			sb.WriteString(g.Stack.Calls[i].Args.String())
+			sb.WriteString("\n")
+		}
+	}
+	return sb.String()
+}
+
+func immutAug(res *Result, dump string, idx int, cs interface{}) {
+	opts := &stack.Opts{LocalGOROOT: runtime.GOROOT(), GuessPaths: true, AnalyzeSources: true, NameArguments: true}
+	fresh, _ := scanWith(dump, opts)
+	s, _ := scanWith(dump, opts)
+	if fresh == nil || s == nil || len(s.Goroutines) != 2 {
+		return
+	}
+	bad := func(step string) bool {
+		if !reflect.DeepEqual(s.Goroutines, fresh.Goroutines) {
+			res.violation(Finding{Property: "C14", Aspect: "mutated-augmented", What: fmt.Sprintf("augment case %d: after %s the snapshot (source analysis on) differs from a freshly parsed one", idx, step), Case: cs, Input: []byte(dump)})
+			return true
+		}
+		return false
+	}
+	t0 := textOf(s, nil)
+	if bad("rendering the arguments as text") {
+		return
+	}
+	texts := map[stack.Similarity]string{}
+	for _, lv := range []stack.Similarity{stack.AnyPointer, stack.ExactFlags, stack.AnyValue} {
+		a := s.Aggregate(lv)
+		texts[lv] = textOf(nil, a)
+		if bad(fmt.Sprintf("aggregating at level %d and rendering the buckets as text", lv)) {
+			return
+		}
+		var b bytes.Buffer
+		_ = a.ToHTML(&b, "")
+		if bad(fmt.Sprintf("rendering the aggregation at level %d as HTML", lv)) {
+			return
+		}
+	}
+	var b bytes.Buffer
+	_ = s.ToHTML(&b, "")
+	if bad("rendering the snapshot as HTML") {
+		return
+	}
+	if t1 := textOf(s, nil); t1 != t0 {
+		res.violation(Finding{Property: "C14", Aspect: "rerender-augmented", What: fmt.Sprintf("augment case %d: rendering the same snapshot's arguments a second time gives different text", idx), Case: cs, Input: []byte(dump), Expected: t0, Observed: t1})
+		return
+	}
+	for lv, t := range texts {
+		if t2 := textOf(nil, s.Aggregate(lv)); t2 != t {
+			res.violation(Finding{Property: "C14", Aspect: "reaggregate-augmented", What: fmt.Sprintf("augment case %d: aggregating again at level %d renders differently", idx, lv), Case: cs, Input: []byte(dump), Expected: t, Observed: t2})
+			return
+		}
+	}
+	// several goroutines on the same snapshot: same text as alone (and no data race: the binary
+	// of the C14 check is built with -race)
+	var wg sync.WaitGroup
+	out := make([]string, 4)
+	for w := range out {
+		wg.Add(1)
+		go func(w int) {
+			defer wg.Done()
+			if w%2 == 0 {
+				out[w] = textOf(s, nil)
+			} else {
+				out[w] = textOf(nil, s.Aggregate(stack.AnyPointer))
+			}
+		}(w)
+	}
+	wg.Wait()
+	for w := range out {
+		want := t0
+		if w%2 == 1 {
+			want = texts[stack.AnyPointer]
+		}
+		if out[w] != want {
+			res.violation(Finding{Property: "C14", Aspect: "concurrent-augmented", What: fmt.Sprintf("augment case %d: rendering concurrently gives different text than alone", idx), Case: cs, Input: []byte(dump), Expected: want, Observed: out[w]})
+			return
+		}
+	}
+	bad("concurrent rendering and aggregation")
+}
+
+var immutOnly bool
+
 func checkAugCase(res *Result, ac *augCase, dir string, idx int, seed int64, realRun bool) {
 	rng := rand.New(rand.NewSource(seed))
 	var ps []augParam
@@ -349,12 +447,30 @@ func checkAugCase(res *Result, ac *augCase, dir string, idx int, seed int64, rea
 						if !reflect.DeepEqual(g.Stack.Calls[0].Args.Processed, shown) {
 							res.violation(Finding{Property: "C12", Aspect: "processed", What: fmt.Sprintf("augment case %d: the bucket presents the typed arguments %v as common, but goroutine %d has %v", idx, shown, g.ID, g.Stack.Calls[0].Args.Processed),
 								Case: cs, Input: []byte(dump2), Expected: g.Stack.Calls[0].Args.Processed, Observed: shown})
+							res.violation(Finding{Property: "C19", Aspect: "bucket-rendering", What: fmt.Sprintf("augment case %d: the typed rendering %v shown for a bucket is not what goroutine %d passed (%v)", idx, shown, g.ID, g.Stack.Calls[0].Args.Processed),
+								Case: cs, Input: []byte(dump2), Expected: g.Stack.Calls[0].Args.Processed, Observed: shown})
 							break
 						}
 					}
 				}
 			}
 		}
+	}
+	// C14 with source analysis on: rendering and aggregating a snapshot that holds typed
+	// renderings next to frames without any leaves it as a fresh scan gives it.
+	{
+		ps2 := append([]augParam{}, ps...)
+		w2 := append([]uint64{}, ps2[0].words...)
+		w2[0] += 8
+		q := ps2[0]
+		q.words = w2
+		ps2[0] = q
+		tail := "other.fn(0x10, 0xc000123456)\n\t/nonexistent/x.go:7 +0x1d\n"
+		dump3 := fmt.Sprintf("goroutine 1 [running]:\n%s(%s)\n\t%s:%d +0x1d\n%s\ngoroutine 2 [running]:\n%s(%s)\n\t%s:%d +0x1d\n%s", fn, words, file, pl, tail, fn, printWords(ps2, recv), file, pl, tail)
+		immutAug(res, dump3, idx, cs)
+	}
+	if immutOnly {
+		return
 	}
 	// mismatching sources: never a crash, a changed value or a changed frame
 	base, _ := scanWith(dump, &stack.Opts{LocalGOROOT: runtime.GOROOT(), GuessPaths: true})
@@ -463,7 +579,11 @@ func init() {
 	register("augment", "C19: replay MC_Augment parameter lists on generated sources, real compiled programs and mismatching sources", func(args []string) error {
 		c := newCommon("augment")
 		programs := c.fs.Int("programs", 40, "how many cases are also compiled with the toolchain and crashed")
+		c.fs.BoolVar(&immutOnly, "immut", false, "only the C14 part: immutability of snapshots that hold typed renderings")
 		_ = c.fs.Parse(args)
+		if immutOnly {
+			*programs = 0
+		}
 		res := newResult("one case = a parameter list over the supported kinds (from MC_Augment) with seeded values incl. negative, extreme and pointer-looking ones, optionally on a pointer-receiver method: a synthetic traceback in the toolchain's word layout against generated sources (naming off and on), six kinds of mismatching sources, and for a seeded sample the real traceback of the compiled (-gcflags '-N -l') and crashed program; non-trivial = at least two parameters")
 		var cases []augCase
 		err := scanTLC(*c.in, func(tag string, js []byte) error {
